@@ -25,7 +25,8 @@ RULE = (
     "int32/int64/uint32), save_metadata(field, mapping) with values in ints, floats (incl. "
     "int-valued, nan), non-empty non-numeric strings that may contain tab, comma, quotes and "
     "spaces, None; write_foreign(file, kind) with kind in {valid TSV, valid CSV, empty file, "
-    "header only, ragged rows, no cluster_id column, non-integer ids, binary garbage, "
+    "header only, ragged rows, no cluster_id column, non-integer ids, binary garbage, generated "
+    "byte strings (fragments of headers, delimiters, quotes, NULs, invalid UTF-8), "
     "cluster_info.tsv redefining a saved field (must be ignored)} - fields of foreign files are "
     "disjoint from saved field names and from each other; save_spikes_subset_waveforms(max per "
     "template, max channels, unit factor); close; reload. Steps <= 10 (quick) / 25 (thorough). "
@@ -57,7 +58,8 @@ _value = st.one_of(st.integers(-5, 50), st.floats(-100, 100, allow_nan=False),
                    st.sampled_from([2.0, 'nan']), _str_val, st.none())
 _mapping = st.lists(st.tuples(st.integers(0, 30), _value), max_size=5,
                     unique_by=lambda kv: kv[0]).map(lambda kv: [list(x) for x in kv])
-FOREIGN_KINDS = ['tsv', 'csv', 'empty', 'header', 'ragged', 'nocid', 'strids', 'binary', 'info']
+FOREIGN_KINDS = ['tsv', 'csv', 'empty', 'header', 'ragged', 'nocid', 'strids', 'binary', 'info',
+                 'fuzz', 'fuzz']
 
 
 def _val(v):
@@ -206,6 +208,9 @@ class Interp(object):
             p.write_text('%s\t%s\n1\t2\n3\t4\n' % (fa, fb))
         elif k == 'strids':
             p.write_text('cluster_id\t%s\nabc\t1\n1.5\t2\n' % fa)
+        elif k == 'fuzz':
+            # arbitrary generated bytes (text fragments, delimiters, quotes, NULs, invalid UTF-8)
+            p.write_bytes(bytes.fromhex(op.get('blob', '')))
         elif k == 'binary':
             p.write_bytes(bytes((i * 37 + 11) % 256 for i in range(64)) + b'\x00\xff\xfe\t\n')
 
@@ -356,6 +361,11 @@ _rows = st.lists(st.tuples(st.integers(0, 40), _tok, _tok), max_size=4,
                  unique_by=lambda r: r[0]).map(lambda rs: [list(r) for r in rs])
 
 
+_frag = st.sampled_from([b'cluster_id', b'\t', b',', b'\n', b'\r\n', b'"', b"'", b'1', b'2.5', b'abc',
+                         b'\x00', b'\xff\xfe', b'\xc3', b' ', b'-', b'nan', b'e5', b'\\'])
+_blob = (st.lists(_frag, max_size=24).map(b''.join) | st.binary(max_size=40)).map(lambda b: b.hex())
+
+
 class Machine(_Base):
     @initialize(spec=D.dataset_spec(raw=True, features=False, tfeatures=False, max_nc=8))
     def init(self, spec):
@@ -380,9 +390,12 @@ class Machine(_Base):
         self.do(dict(op='save_metadata', field=field, mapping=mapping))
 
     @precondition(lambda self: self.interp is not None)
-    @rule(kind=st.sampled_from(FOREIGN_KINDS), file=st.integers(0, 2), rows=_rows)
-    def foreign(self, kind, file, rows):
-        self.do(dict(op='foreign', kind=kind, file=file, rows=rows))
+    @rule(kind=st.sampled_from(FOREIGN_KINDS), file=st.integers(0, 2), rows=_rows, blob=_blob)
+    def foreign(self, kind, file, rows, blob):
+        op = dict(op='foreign', kind=kind, file=file, rows=rows)
+        if kind == 'fuzz':
+            op['blob'] = blob
+        self.do(op)
 
     @precondition(lambda self: self._live())
     @rule(mpt=st.integers(2, 6), mc=st.integers(1, 8), ncc=st.integers(2, 12),
@@ -408,7 +421,7 @@ Machine.MOD = sys.modules[__name__]
 
 def drivers(tier):
     th = tier == 'thorough'
-    return [dict(kind='machine', name='history', machine=Machine, examples=6000 if th else 1500,
+    return [dict(kind='machine', name='history', machine=Machine, examples=20000 if th else 4000,
                  steps=25 if th else 10)]
 
 
